@@ -85,7 +85,10 @@ def run(tier, seed):
         raise tlc.TLCError("no histories exported")
     names = ML.accepted_metrics()
     if len(names) < 10:
-        raise tlc.TLCError("only %d river metrics accepted by validate_loss_function - harness problem" % len(names))
+        # 41 metrics are accepted on the unchanged tree: the validator (not the harness) stopped accepting them
+        ctx.violation("metric.accepted", "validate_loss_function", "only %d river metrics are turned into a loss by validate_loss_function "
+                      "(41 on the unchanged tree): %s" % (len(names), names), None)
+        return ctx.finish()
     per_metric = 120 if quick else 2500
     total = 0
     for name in names:
